@@ -369,7 +369,7 @@ func (b *TableColumnGroupBox) span() int {
 	if len(b.Children) != 0 {
 		return len(b.Children)
 	}
-	return integerAttribute(utils.HTMLNode(*b.Element).Get("span"), 1)
+	return integerAttribute(utils.HTMLNode(*b.Element).Get("span"), 1, maxColspan)
 }
 
 // Return cells that originate in the group's columns.
@@ -390,12 +390,19 @@ func NewTableColumnBox(style pr.ElementStyle, element *html.Node, pseudoType str
 }
 
 func (b *TableColumnBox) span() int {
-	return integerAttribute(utils.HTMLNode(*b.Element).Get("span"), 1)
+	return integerAttribute(utils.HTMLNode(*b.Element).Get("span"), 1, maxColspan)
 }
 
 // Read an integer attribute from the HTML element.
 // If is invalid, it default to 1
-func integerAttribute(attr string, minimum int) int {
+// Limits of the HTML standard for the span attributes
+// https://html.spec.whatwg.org/multipage/tables.html#attr-tdth-colspan
+const (
+	maxColspan = 1000
+	maxRowspan = 65534
+)
+
+func integerAttribute(attr string, minimum, maximum int) int {
 	value := strings.TrimSpace(attr)
 	intValue, err := strconv.Atoi(value)
 	if err != nil {
@@ -403,6 +410,9 @@ func integerAttribute(attr string, minimum int) int {
 	}
 	if intValue < minimum {
 		intValue = minimum
+	}
+	if intValue > maximum {
+		intValue = maximum
 	}
 	return intValue
 }
@@ -416,8 +426,8 @@ func NewTableCellBox(style pr.ElementStyle, element *html.Node, pseudoType strin
 	// but HTML 5 removed it
 	// http://www.w3.org/TR/html5/tabular-data.html#attr-tdth-colspan
 	// rowspan=0 is still there though.
-	out.Colspan = integerAttribute(utils.HTMLNode(*element).Get("colspan"), 1)
-	out.Rowspan = integerAttribute(utils.HTMLNode(*element).Get("rowspan"), 0)
+	out.Colspan = integerAttribute(utils.HTMLNode(*element).Get("colspan"), 1, maxColspan)
+	out.Rowspan = integerAttribute(utils.HTMLNode(*element).Get("rowspan"), 0, maxRowspan)
 	return &out
 }
 
